@@ -242,7 +242,7 @@ def real_libm(ex, st, name, args):
             st.event('sqrt-negative', where=ex.where(st))
             return math.nan
         r = ex.leaf(st, 'sqrt', [az])
-        st.pc.append(z3.And(r >= 0, r * r == az))
+        st.add(z3.And(r >= 0, r * r == az))
         return r
     if name == 'log':
         if isinstance(a, (Fraction, int)):
@@ -287,11 +287,11 @@ def fp_libm(ex, st, name, args):
     # minimal, always-true axioms
     if name == 'log':
         x = xs[0]
-        st.pc.append(z3.Implies(z3.Or(z3.fpIsNaN(x), z3.fpLT(x, fpval(0.0))), z3.fpIsNaN(r)))
-        st.pc.append(z3.Implies(z3.fpIsZero(x), z3.And(z3.fpIsInf(r), z3.fpIsNegative(r))))
-        st.pc.append(z3.Implies(z3.And(z3.fpGT(x, fpval(0.0)), z3.Not(z3.fpIsInf(x))),
+        st.add(z3.Implies(z3.Or(z3.fpIsNaN(x), z3.fpLT(x, fpval(0.0))), z3.fpIsNaN(r)))
+        st.add(z3.Implies(z3.fpIsZero(x), z3.And(z3.fpIsInf(r), z3.fpIsNegative(r))))
+        st.add(z3.Implies(z3.And(z3.fpGT(x, fpval(0.0)), z3.Not(z3.fpIsInf(x))),
                                 z3.And(z3.Not(z3.fpIsNaN(r)), z3.Not(z3.fpIsInf(r)))))
-        st.pc.append(z3.Implies(z3.And(z3.fpIsInf(x), z3.fpIsPositive(x)),
+        st.add(z3.Implies(z3.And(z3.fpIsInf(x), z3.fpIsPositive(x)),
                                 z3.And(z3.fpIsInf(r), z3.fpIsPositive(r))))
     return r
 
